@@ -43,6 +43,9 @@ CHECKS = {
     "C06": ("IntervalSet model of the bytes stored so far judged on every NAK PDU a real destination handler emits while a scripted "
             "sender delivers a grid-segmented file in tape-chosen order with loss / duplication / displacement and answers NAK "
             "sequences across NAK-timer expiries; exactness on timer-driven re-issues, sandwich inclusion on the first sequence", "5 C06", "refinement vs IntervalSet model"),
+    "C16": ("every tape of the fault-free / bounded-fault / cancel populations executed over NativeFilestore and over an in-memory "
+            "filestore: host file-system entry points audited during every handler API call, traces of the two executions "
+            "compared, host sandbox compared before / after the in-memory run", "5 C16", "syscall audit + twin-run differential"),
     "C18": ("shadow IntervalSet judged on every LostSegmentTracker operation the destination handler issues under simulated arrival "
             "histories and fault schedules (grid, bounded-fault, chaos, synthetic-peer populations); only operations inside the "
             "property's preconditions are judged; the exhaustive-for-small-N part of the quantifier is NOT reached (DESIGN 6)", "5 C18, 6", "in-situ refinement vs shadow IntervalSet"),
